@@ -30,7 +30,7 @@ def cases(rng, tier):
                 cs.append({"kind": "matrix", "n": 3, "e": ("u3", 0.9, 0.3, a, m)})
     # (b) register path on dense states, n = 0..5 (padding for n < 3)
     for n in range(0, 6):
-        reps = 12 if tier == "quick" else 60
+        reps = 12 if tier == "quick" else 300
         for _ in range(reps):
             g = gen.random_gate(rng, n)
             cs.append({"kind": "applyraw", "n": n, "raw": gen.random_state(rng, n), "e": g})
@@ -44,7 +44,7 @@ def cases(rng, tier):
             cs.append({"kind": "applybasis", "n": nn, "j": rng.randrange(1 << nn), "e": gen.gate(kind, m, rng)})
     # (d) high bit positions through sparse probes
     top = 12 if tier == "quick" else 20
-    for _ in range(60 if tier == "quick" else 300):
+    for _ in range(60 if tier == "quick" else 1500):
         kind = rng.choice(gen.ALL_KINDS[:-1])
         need = 2 if kind in gen.PARAM2 + gen.NOPARAM2 else (1 if kind in gen.PARAM1 + ["u2", "u3"] else rng.choice([1, 2, 3]))
         bits = rng.sample(range(top + 1), need)
